@@ -424,7 +424,7 @@ def signature(ls, roles, event_norm=None):
                 continue
             carried.append((c["var"], ini, upd))
         loops_out.append([l["parent"], l["kind"], apply_roles(l["source"], roles) if l["source"] is not None else None,
-                          [(apply_roles(c, roles), v) for c, v in l["conds"]], carried])
+                          [T.canon_cond(apply_roles(c, roles), v) for c, v in l["conds"]], carried])
     events = []
     for e in ls.events:
         ev = (e["sink"], tuple(apply_roles(a, roles) for a in e["args"]))
